@@ -51,10 +51,12 @@ def thicknesses(n, unequal):
     return [pat[i % len(pat)] for i in range(n)]
 
 
-def run_case(c, builder, detector, unequal, lazy_too=True):
+def run_case(c, builder, detector, unequal, lazy_too=True, crystal=False):
     import abtem
     n = c["n"]
     th = thicknesses(n, unequal)
+    if crystal:                      # CrystalPotential: unit of n/2 (unequal) slices repeated twice along z
+        th = thicknesses(n // 2, True) * 2
     from ase import Atoms
     pos, sym, z = [], [], 0.0
     for i, t in enumerate(th):
@@ -67,7 +69,13 @@ def run_case(c, builder, detector, unequal, lazy_too=True):
                  "slice_fp": [fixed(t) for t in th], "lazy_ppb": 0}
     sink = Sink()
     try:
-        pot = abtem.Potential(atoms, gpts=16, slice_thickness=tuple(th), exit_planes=ep, projection="infinite")
+        if crystal:
+            half = len(th) // 2
+            unit_atoms = Atoms(sym[:half], positions=pos[:half], cell=(4.0, 4.0, sum(th[:half])), pbc=True)
+            unit = abtem.Potential(unit_atoms, gpts=16, slice_thickness=tuple(th[:half]), projection="infinite")
+            pot = abtem.CrystalPotential(unit, repetitions=(1, 1, 2), exit_planes=ep)
+        else:
+            pot = abtem.Potential(atoms, gpts=16, slice_thickness=tuple(th), exit_planes=ep, projection="infinite")
         if tuple(pot.exit_planes) != tuple(c["planes"]):
             ev_result["planes"] = [int(p) for p in pot.exit_planes]        # the code's own list (drift is reported separately)
         if builder == "plane":
@@ -174,6 +182,11 @@ def run(ctx: Ctx):
             meta = {"case": c, "builder": builder, "detector": det, "unequal": unequal}
             items.append((meta, t))
             ctx.case(json.dumps(meta), nontrivial=len(c["planes"]) > 1)
+        if c["n"] % 2 == 0 and c["n"] >= 4:
+            t = run_case(c, "plane", "waves", True, lazy_too=False, crystal=True)
+            meta = {"case": c, "builder": "plane", "detector": "waves", "unequal": True, "crystal": True}
+            items.append((meta, t))
+            ctx.case(json.dumps(meta), nontrivial=len(c["planes"]) > 1)
             if t[-1].get("planes") != c["planes"]:
                 drift += 1
                 if len(ctx.drift) < 10:
@@ -187,7 +200,7 @@ def run(ctx: Ctx):
 
 def replay(ctx: Ctx, case):
     m = case["meta"]
-    t = run_case(m["case"], m["builder"], m["detector"], m["unequal"])
+    t = run_case(m["case"], m["builder"], m["detector"], m["unequal"], crystal=m.get("crystal", False))
     ctx.case("replay")
     ctx.sample({"meta": m, "trace": t})
     judge(ctx, [(m, t)])
